@@ -31,8 +31,9 @@ Definition proper_coloring (n : Z) (E : list (Z * Z)) (k : Z) (phi : Z -> Z) : P
   (forall v, 1 <= v <= n -> 1 <= phi v <= k) /\
   (forall e, In e E -> phi (fst e) <> phi (snd e)).
 
-(* NOT proved (tested by enumeration in harness/c02.py): when every union of components contains an
-   even number of edges the even-colouring formula is satisfiable *)
+(* when every union of components contains an even number of edges the even-colouring formula is
+   satisfiable: proved in Fam_coloring_Euler.v (ec_sat_of_even_components), also tested by enumeration in
+   harness/c02.py *)
 Definition ec_sat_of_even_components_statement : Prop :=
   forall n E l, graph_wf n E = true -> ec_ir n E = Some l ->
     (forall S, closed_under_edges S E -> Z.even (len (filter (fun e => S (fst e)) E)) = true) ->
